@@ -36,11 +36,14 @@ pub struct Cfg {
     pub dup_tx_names: bool,
     /// C10: now and then the same UTxO is assigned to two input blocks (what a client can hand to apply_inputs)
     pub share_utxo_between_blocks: bool,
+    /// C08: now and then an input's redeemer is a value that has no Plutus-Data form (a bare UTxO reference):
+    /// such a template has no denotation and must be refused, not compiled without the redeemer
+    pub unencodable_redeemer: bool,
 }
 
 impl Default for Cfg {
     fn default() -> Self {
-        Cfg { cardano_pct: 10, redeemers: true, risky_pct: 25, boundary_ints: false, max_txs: 2, balanced: false, min_utxo: false, max_cases: 4, datum_pct: 60, mint_pct: 40, datum_focus: false, redeemer_focus: false, partial_const: false, dup_tx_names: false, share_utxo_between_blocks: false }
+        Cfg { cardano_pct: 10, redeemers: true, risky_pct: 25, boundary_ints: false, max_txs: 2, balanced: false, min_utxo: false, max_cases: 4, datum_pct: 60, mint_pct: 40, datum_focus: false, redeemer_focus: false, partial_const: false, dup_tx_names: false, share_utxo_between_blocks: false, unencodable_redeemer: false }
     }
 }
 
@@ -923,7 +926,10 @@ impl<'r> Builder<'r> {
             // the redeemer may read the datums of the inputs declared *before* this one: the code under
             // test resolves an input name to a copy of the whole block, so reference cycles (an input
             // whose redeemer reads its own datum) are C13's subject, not C01's
-            if self.cfg.redeemers && (self.rng.chance(1, 3) || (self.cfg.redeemer_focus && self.rng.chance(3, 4))) {
+            if self.cfg.unencodable_redeemer && self.rng.chance(1, 12) {
+                inp.redeemer = Some(self.param(Ty::UtxoRef, Role::Ref));
+                self.tag("unencodable-redeemer");
+            } else if self.cfg.redeemers && (self.rng.chance(1, 3) || (self.cfg.redeemer_focus && self.rng.chance(3, 4))) {
                 inp.redeemer = Some(self.any_datum(Pos::Datum));
                 self.tag("spend-redeemer");
             }
@@ -1138,10 +1144,20 @@ impl<'r> Builder<'r> {
             self.tag("metadata");
         }
 
-        if self.rng.below(100) < self.cfg.cardano_pct {
-            match self.rng.below(5) {
+        let n_cardano = if self.rng.below(100) < self.cfg.cardano_pct { 1 + (self.rng.chance(1, 3) as usize) + (self.rng.chance(1, 6) as usize) } else { 0 };
+        for _ in 0..n_cardano {
+            // (several blocks per tx now and then: two withdrawals, witnesses of different Plutus versions ...)
+            let kind = self.rng.below(5);
+            if kind == 2 && self.cur_tx.cardano.iter().any(|c| matches!(c, Cardano::TreasuryDonation { .. })) {
+                continue;
+            }
+            match kind {
                 0 | 1 => {
-                    let from = E::Party(self.stake_party());
+                    let p = self.stake_party();
+                    if self.cur_tx.cardano.iter().any(|c| matches!(c, Cardano::Withdrawal { from: E::Party(q), .. } if *q == p)) {
+                        continue;
+                    }
+                    let from = E::Party(p);
                     let amount = self.typed_int();
                     let redeemer = if self.cfg.redeemers && self.rng.bool() { Some(self.any_datum(Pos::Plain)) } else { None };
                     if redeemer.is_some() {
